@@ -94,6 +94,7 @@ INT['abs'] = dict(doc='exact |a|; abs(MIN) is an error', verus='''ensures match 
             Ok(v) => self.0 != i64::MIN && v.0 as int == crate::vs::int_abs_spec(self.0 as int),
             Err(_) => self.0 == i64::MIN,
         }''')
+INT['from_hex_str'] = dict(doc='radix-16 parser', verus='ensures r == (match crate::vs::hex_int_spec(literal@) { Some(i) => Ok::<Self, ()>(i), None => Err(()) })')
 INT['from_usize'] = dict(doc='usize -> int exact or error', verus='''ensures match r {
             Ok(v) => v.0 as int == int_v as int,
             Err(_) => int_v as int > i64::MAX as int,
